@@ -65,11 +65,26 @@ def assigns(*t):
     return "__CPROVER_assigns(%s)\n" % "; ".join(t)
 
 
+def alias_all(*ptrs):
+    """Every alias pattern among ptrs: the first is fresh, each later one equals an earlier one or is fresh."""
+    out = ""
+    for k, p in enumerate(ptrs):
+        alts = ["__CPROVER_pointer_equals(%s, %s)" % (p, q) for q in ptrs[:k]] + [fresh(p)]
+        out += "__CPROVER_requires(%s)\n" % " || ".join(alts)
+    return out
+
+
+def restrict(out, *ps):
+    """__restrict operands: distinct from the written object.  Asserted at call sites (call-site
+    obligation, reported as a restrict-discipline finding); dropped when the function itself is
+    enforced, so the body is proved under MORE alias patterns than its signature permits."""
+    return "".join("__CPROVER_requires(%s != %s) /* restrict */\n" % (out, p) for p in ps)
+
+
 def alias_out_a_b(out="self", a="a", b="b"):
     """out may alias a; a may alias b; b is __restrict w.r.t. the written object."""
-    return req(fresh(b), "__CPROVER_pointer_equals(%s, %s) || %s" % (a, b, fresh(a)),
-               "__CPROVER_pointer_equals(%s, %s) || %s" % (out, a, fresh(out)), "%s != %s" % (out, b))
+    return alias_all(b, a, out) + restrict(out, b)
 
 
 def alias_out_a(out="self", a="a"):
-    return req(fresh(a), "__CPROVER_pointer_equals(%s, %s) || %s" % (out, a, fresh(out)))
+    return alias_all(a, out)
